@@ -587,7 +587,7 @@ def save_restore_round_trip_rule(ctx, rid="R15.16"):
     simu = repo.cls(SIMU)
     algo_cls = repo.cls("EasyFEA.Simulations.Solvers.AlgoType")
     members = repo.enum_members(algo_cls.qualname)
-    r = ctx.rule(rid, "Save_Iter then Set_Iter is the identity on (u, v) under a first-order scheme and on (u, v, a) under a second-order scheme, for every simulation class whose element system has the corresponding C / M slot", min_instances=8)
+    r = ctx.rule(rid, "Save_Iter then Set_Iter is the identity on (u, v) under a first-order scheme and on (u, v, a) under a second-order scheme, for every simulation class whose element system has the corresponding C / M slot and every member of the scheme family", min_instances=16)
     U, V, A = (XArray((4,), [Poly.var(f"{n}{i}") for i in range(4)]) for n in "uva")
 
     def capability(ci):
@@ -615,7 +615,9 @@ def save_restore_round_trip_rule(ctx, rid="R15.16"):
         if fs is None or fr is None or fs.cls is not ci:
             continue
         hasC, hasM = capability(ci)
-        schemes = ([("parabolic", 2)] if hasC else []) + ([("newmark", 3), ("midpoint", 3)] if hasM else [])
+        # every member of the second-order family, as the code itself classifies them (newmark, midpoint, hht, hht_newmark, the two Euler schemes)
+        hyper = [str(x.name) if hasattr(x, "name") else str(x) for x in Interp(repo).call_function(repo.method(algo_cls.qualname, "Get_Hyperbolic_Types"), [])]
+        schemes = ([("parabolic", 2)] if hasC else []) + ([(h, 3) for h in hyper] if hasM else [])
         for algo, nfields in schemes:
             r.instance(fn=fs.qualname)
             saved, got = {}, []
